@@ -876,12 +876,14 @@ impl<'ascent, 'grammar, W: Write>
             }
             rust!(self.out, "let {p}end = {p}start.clone();", p = self.prefix);
         } else {
-            // this only occurs in the start state
+            // this only occurs in the start state: nothing has been pushed yet, so the
+            // location is the start of the lookahead (as in the table-driven parser), or the
+            // default location at end of input
             rust!(
                 self.out,
-                "let {}start: {} = Default::default();",
-                self.prefix,
+                "let {p}start: {} = {p}lookahead.as_ref().map(|o| o.0.clone()).unwrap_or_default();",
                 loc_type,
+                p = self.prefix,
             );
             rust!(self.out, "let {p}end = {p}start.clone();", p = self.prefix);
         }
